@@ -2,7 +2,7 @@ import ModbusProofs
 import Lean
 /-
   Audit: lists every theorem of the property modules (`ModbusProofs.Properties.*`) with the
-  axioms it depends on (`Lean.collectAxioms`), as JSON on stdout.
+  axioms it depends on (`Lean.collectAxioms`) and a structural hash of its statement, as JSON on stdout.
   Run with `lake env lean ModbusProofs/Audit.lean`.
 -/
 open Lean Elab Command
@@ -25,7 +25,9 @@ def jsonEscape (s : String) : String := (s.replace "\\" "\\\\").replace "\"" "\\
         if (`ModbusProofs.Properties).isPrefixOf m && !n.isInternalDetail && !generated then
           let ax ← liftCoreM (collectAxioms n)
           let axs := ", ".intercalate (ax.toList.map fun a => "\"" ++ jsonEscape a.toString ++ "\"")
-          items := items.push s!"\{\"name\": \"{jsonEscape n.toString}\", \"module\": \"{m}\", \"axioms\": [{axs}]}"
+          -- structural hash of the statement (binder names do not enter it): recorded in OBLIGATIONS.json, so that a
+          -- statement cannot be weakened silently while a proof is repaired
+          items := items.push s!"\{\"name\": \"{jsonEscape n.toString}\", \"module\": \"{m}\", \"stmt\": \"{ci.type.hash}\", \"axioms\": [{axs}]}"
       | none => pure ()
     | _ => pure ()
   let sorted := items.qsort (· < ·)
